@@ -127,6 +127,25 @@ pub fn judge_read_file(it: &mut Interp, text: &str, scratch: &std::path::Path) -
     judge_read_outcome(&normal, o)
 }
 
+/// an exact number inside the value that is not an integer or a ratio in lowest terms with a
+/// denominator >= 2
+fn non_canonical(o: &crate::drive::Obs) -> Option<String> {
+    use crate::drive::Obs;
+    fn gcd(a: i64, b: i64) -> i64 {
+        if b == 0 {
+            a.abs()
+        } else {
+            gcd(b, a % b)
+        }
+    }
+    match o {
+        Obs::Rat(a, b) if *b < 2 || gcd(*a as i64, *b as i64) != 1 => Some(format!("{}/{}", a, b)),
+        Obs::Pair(x, y) => non_canonical(x).or_else(|| non_canonical(y)),
+        Obs::Vector(_, v) => v.iter().find_map(non_canonical),
+        _ => None,
+    }
+}
+
 fn judge_read_outcome(text: &str, o: Outcome) -> Verdict {
     let want = reflex::tokenize(text, Mode::default());
     let toks = match &want {
@@ -149,6 +168,11 @@ fn judge_read_outcome(text: &str, o: Outcome) -> Verdict {
         (Ok(d), Outcome::Val(ob)) => {
             let mut m = Machine::new(POLICIES[0]);
             let rv = m.datum(d);
+            if let Some(bad) = non_canonical(ob) {
+                // the datum of an exact literal is the number, in its one representation: 6/4 is
+                // 3/2 and 4/2 is 2 (eqv?, vector-ref and display tell the difference)
+                return Verdict::Bad(format!("{}", d), format!("{} holds the exact number {} in a non-canonical form", o, bad), None);
+            }
             if rmatch(&rv, ob) {
                 Verdict::Ok(hash_of(ob))
             } else {
@@ -179,7 +203,7 @@ pub fn nth_string(mut i: u64, len: usize) -> String {
 }
 
 pub const TOKEN_REPS: &[&str] = &[
-    "+", "-", "...", "->x", "+a", ".a", "a.b", "a", "x1", "|a b|", "#t", "#f", "#\\a", "#\\(", "#\\ ", "\"s\"", "\"\\\"\"", "\"a b\"", "12", "-12", "+5", "1/2", "-3/4", "1.5", "1.", "+.5", "-.5e1", "1e2",
+    "+", "-", "...", "->x", "+a", ".a", "a.b", "a", "x1", "|a b|", "#t", "#f", "#\\a", "#\\(", "#\\ ", "\"s\"", "\"\\\"\"", "\"a b\"", "12", "-12", "+5", "1/2", "-3/4", "6/4", "4/2", "0/7", "1.5", "1.", "+.5", "-.5e1", "1e2",
     "1.5e-3", "(", ")", "#(", "'", ".", "0", "a1", "<=?", "e", "t",
 ];
 pub const SEPARATORS: &[&str] = &["", " ", "\t", "\r", "\n", "\r\n", ";c\n", "  ", " ;; x\n "];
